@@ -297,6 +297,7 @@ def _contains_after_head(n):
 
 
 @harness('c05.contains_after_head', ['C05', 'C08', 'C09', 'C01', 'C10'], functions=[QP + '.contains_after_head'],
+         fallback=r'^c05\.contains_after_head\[',
          assumptions=['Python semantics of list(deque)[1:] and any(generator expression) as modelled: the slice drops exactly the first '
                       'element (none if empty), any() is the existential over the elements; the element test is evaluated on a generic '
                       'element and must not branch on it'])
@@ -322,7 +323,7 @@ def contains_after_head_unbounded(E):
 
 
 for _n in range(0, 5):
-    harness('c05.contains_after_head[queue_length=%d]' % _n, ['C05', 'C08', 'C09', 'C01'], kind='bounded',
+    harness('c05.contains_after_head[queue_length=%d]' % _n, ['C05', 'C08', 'C09', 'C01', 'C10'], kind='bounded',
             functions=[QP + '.contains_after_head', BASE + '._is_stream_queued_behind_head'],
             assumptions=['BOUNDED stand-in: the scan over the deque is checked for queue lengths 0..4 with symbolic stream ids'])(
         _contains_after_head(_n))
